@@ -476,6 +476,9 @@ class Interp(object):
             return [(st, "next", None)]      # write into unknown object: no tracked effect
         if isinstance(base, (ModuleVal, ClassVal)):
             self.emit(st, ("setglobal", repr(base), attr, v))
+            if isinstance(base, ModuleVal):
+                nm = base.mod.name if isinstance(base.mod, Module) else base.mod
+                st.ghost["@g:%s.%s" % (nm, attr)] = v
             return [(st, "next", None)]
         raise Unsupported("setattr on %r.%s at %s" % (base, attr, self.loc(node)))
 
